@@ -145,6 +145,19 @@ struct Wide {
                 expect = 0, got = 0;
                 for (int i = 0; i < 6; ++i)
                     if (e[i] != g[i]) got = i + 1;
+                if constexpr (WithInt) {
+                    // the same against a built-in integer on either side (k == a whenever a fits: the tie is where >, >= differ)
+                    using K = std::conditional_t<is_signed, int, unsigned>;
+                    K k = fits<K>(za) && (n % 3 != 0) ? from_mpz<K>(za) : wrap_to<K>(zb);
+                    int o2 = cmp(za, to_mpz(k));
+                    bool e2[6] = {o2 == 0, o2 != 0, o2 < 0, o2 <= 0, o2 > 0, o2 >= 0};
+                    bool g2[6] = {a == k, a != k, a < k, a <= k, a > k, a >= k};
+                    bool g3[6] = {k == a, k != a, k > a, k >= a, k < a, k <= a};
+                    for (int i = 0; i < 6; ++i) {
+                        if (e2[i] != g2[i]) got = 10 + i, fail_detail = "wide cmp built-in " + std::to_string(k);
+                        if (e2[i] != g3[i]) got = 20 + i, fail_detail = "built-in cmp wide " + std::to_string(k);
+                    }
+                }
                 break;
             }
             case INC: {
